@@ -32,8 +32,28 @@ TRUSTED = [
     "size of a random resize, the number of re-draws of the category-ratio loop, rng.random() < p outcomes",
     "generator contract: integers(lo, hi) in [lo, hi); permutation(n) is a permutation of 0..n-1 (checked per case)",
     "torchvision.functional pad/crop/hflip/resize/resized_crop/normalize and einops.rearrange themselves (the output is "
-    "compared with them applied by hand; nearest-resize index maps are not modelled, pixel maps are compared in Coq only "
-    "for resize-free pipelines)",
+    "compared with them applied by hand)",
+    "nearest-neighbour resizes (KDSemsegResize / KDSemsegRandomResize): the index map of every resize call is a recorded "
+    "oracle value, measured by the functional spy on an id image of the same type, dtype and size with the very call "
+    "the code made, and accepted by the model only under the contract nn_okb (per output index: the library's nominal "
+    "source index - torch floor(i*in/out), PIL floor((i+1/2)*in/out) - or one below it where the nominal quotient is an "
+    "exact integer; measured against torch 2.14 / torchvision 0.29 / Pillow 12.3 for all sizes 1..70 and some up to 500: "
+    "no other deviation occurs, float / int64 / uint8 tensors and modes F / I / L give the same maps).  With the maps "
+    "the Coq model reproduces the pixel map of whole pipelines WITH resizes (id-encoded pairs, nearest image "
+    "interpolation) and image/mask alignment is compared pixel by pixel; the maps measured for the image call and "
+    "for the mask call are compared with each other",
+    "image resized bilinearly (the transforms' default), mask nearest: interpolation numerics are not modelled; what is "
+    "proved is where the mask's nominal source pixel lies relative to the image's sampling centre "
+    "(nearest_vs_bilinear_grid_pil: within half a source pixel; nearest_vs_bilinear_grid_torch: torch's legacy NEAREST "
+    "is corner-anchored, the mask lags the image by (in/out - 1)/2 source pixels = less than half an output pixel)",
+    "float32 fact behind the assert of KDSpecAugment._mask_along_axis: proved over Q for a product rounded to nearest "
+    "(specaug_float32_product_below_param: u <= 1 - 2^-24, 2^(e-1) < P <= 2^e <= 2^24, v at least as close to u*P as "
+    "the float below P => v < P) and specaug_assert_never_fires; that torch's float32 product is rounded to nearest and "
+    "that np_random_as_tensor returns a float32 in [0, 1 - 2^-24] is trusted and probed every run: kind 'specprobe' "
+    "evaluates the real np_random_as_tensor at the largest float64 / float32 below 1 (and four more factors) and "
+    "torch's product for EVERY mask_param 1..2^24; Check.v additionally rejects (code 3) any recorded value >= P",
+    "PatchwiseTransform: model = patchify -> merge (sh sw) -> per-patch transform in call order -> split -> unpatchify "
+    "(patchwise_composition_index_map); tied by a wrapped transform that flips its patch and adds 1000 * call number",
     "KDTwoRandomCrop overlap thresholds are dyadic rationals in the correspondence run so that the float comparison "
     "equals the exact one; the theorem holds for all thresholds",
     "harness/c14.py spies (generator, torch.Tensor subclass recording __setitem__/masked_fill, wrapped functional ops in "
@@ -50,13 +70,26 @@ ASSUMPTIONS = [
     "float rounding in sqrt/exp/round and float32 products is outside the theorems (oracle values with a checked contract)",
     "non-semseg transforms inside a SemsegTransformWrapper pipeline are geometry preserving",
     "spec-augment 'in bounds' claim 0 <= start, end <= size needs mask_param <= size (for larger parameters the "
-    "mask is clipped by the axis, proved as masked_inside)",
+    "mask is clipped by the axis, proved as masked_inside); mask_param <= 2^24 for the float32 theorem",
+    "KDSemsegRandomResize rounds a side to 0 for 1-pixel-wide pairs scaled down (15x1, base 8x4, ratio 0.5 -> new "
+    "width round(0.27) = 0): torchvision's resize raises an explicit error, counted as rejected input like the "
+    "resized-crop fallback (histogram key 'semseg:resize target rounds a side to 0 (torchvision rejects)', directed "
+    "cases in every run); 'return the requested output size for every input size' is therefore claimed for pairs whose "
+    "scaled sides round to >= 1",
+    "KDRandomErasing draws the rectangle count from integers(min_count, max_count), upper bound EXCLUSIVE, so max_count "
+    "itself is never reached (min_count=1, max_count=2 always erases 1 rectangle); the timm original it adapts uses "
+    "random.randint(min_count, max_count), inclusive ('max_count: maximum number of erasing blocks per image').  Not a "
+    "bounds matter: the model mirrors the code (erase_in_bounds states length <= max(min_count, max_count - 1)); reported only",
 ]
 RULE = ("kinds crop/two/simple/rrc/erase/spec/semseg/multi/patch/patch5/norm; image sides 1..48 (thorough ..200) incl. "
         "smaller than / equal to / one pixel off the target and aspect ratios up to 1:200, tensor and PIL inputs, paddings "
         "none/int/2/4-lists, pad_if_needed, semseg pipelines of 1-6 ops through SemsegTransformWrapper (seeded and "
         "unseeded, direct and via ModeWrapper); non-trivial = the transform returned and made a draw or moved a pixel; "
-        "distinct by (kind, result code, sizes, targets, input type)")
+        "distinct by (kind, result code, sizes, targets, input type); every run: directed resize-only pairs (tie-heavy "
+        "size pairs such as 2->7, 14->46, 26->22, tensor and PIL), 1-pixel-wide pairs through KDSemsegRandomResize, one "
+        "exhaustive float32 probe of mask_param 1..2^24, PatchwiseTransform on 1..5 x 1..5 patch grids; crops and "
+        "resized crops on further input families (PIL L / I;16 / I, uint8 tensors, batched (B,C,H,W) tensors): 100 "
+        "cases quick, 2500 thorough")
 
 MAXU = 400       # cap on generator calls per case
 
@@ -196,6 +229,19 @@ def make_image(H, W, inp, rnd):
     if inp == "pilRGB":
         arr = np.stack([(ids * 7 + 3) % 251, (ids * 13 + 5) % 241, (ids // 3) % 256], axis=-1).astype(np.uint8)
         return Image.fromarray(arr, mode="RGB")
+    # further input families (thorough tier; a few in the quick tier)
+    if inp == "pilL":
+        return Image.fromarray(((ids * 7 + 3) % 251).astype(np.uint8), mode="L")
+    if inp == "pilI16":
+        return Image.fromarray(((ids * 257 + 11) % 65521).astype(np.uint16), mode="I;16")
+    if inp == "pilI":
+        return Image.fromarray((ids + 1).astype(np.int32), mode="I")
+    if inp == "tensor_u8":
+        arr = np.stack([(ids * 7 + 3) % 251, (ids * 13 + 5) % 241, (ids // 3) % 256], axis=0).astype(np.uint8)
+        return torch.tensor(arr)
+    if inp == "tensor_b":      # batched (B, C, H, W)
+        base = torch.tensor(ids + 1, dtype=torch.float32)[None, None].repeat(2, 3, 1, 1)
+        return base + torch.tensor([0., 0.5])[:, None, None, None] + torch.tensor([0., 0.125, 0.25])[None, :, None, None]
     raise ValueError(inp)
 
 
@@ -538,6 +584,58 @@ def _role(img):
     return "x" if img.mode == "F" else "seg"
 
 
+def nominal_nn(kind, n_in, n_out, i):
+    """nominal source index of a nearest resize (torch: corner-anchored, PIL: centre-anchored) and whether the
+    sampling point sits exactly on a pixel border (tie)"""
+    if kind == "NTorch":
+        return (i * n_in) // n_out, (i * n_in) % n_out == 0
+    return ((2 * i + 1) * n_in) // (2 * n_out), ((2 * i + 1) * n_in) % (2 * n_out) == 0
+
+
+def nn_contract(kind, n_in, n_out, m):
+    """None, or what is wrong with a measured index map (the contract of coq/C14/Model.v nn_okb + monotone)"""
+    if len(m) != n_out:
+        return f"{len(m)} entries for {n_out} output indices"
+    for i, v in enumerate(m):
+        nom, tie = nominal_nn(kind, n_in, n_out, i)
+        if not (0 <= v < n_in):
+            return f"output index {i} shows source index {v} outside 0..{n_in - 1}"
+        if not (v == nom or (v == nom - 1 and tie)):
+            return f"output index {i} shows source index {v}, nominal {nom} (tie={tie})"
+        if i and m[i - 1] > v:
+            return f"not monotone at output index {i}"
+    return None
+
+
+def measure_nn(real, img, a, kw):
+    """the index maps (rows, columns) of the very resize call the code made, measured on an id-encoded image of the
+    same type / dtype / size: [kind, my, mx], or a string when the result is not a separable index map"""
+    import numpy as np
+    import torch
+    from PIL import Image
+    if torch.is_tensor(img):
+        H, W = int(img.shape[-2]), int(img.shape[-1])
+        ids = torch.arange(H * W).reshape(1, H, W).to(img.dtype)
+        out = real(ids, *a, **kw)
+        o = out[0].to(torch.int64).numpy()
+        kind = "NTorch"
+    else:
+        H, W = img.height, img.width
+        arr = np.arange(H * W).reshape(H, W)
+        dt = {"F": np.float32, "I": np.int32, "L": np.uint8}.get(img.mode)
+        if dt is None or (img.mode == "L" and H * W > 256):
+            return "unsupported mode " + img.mode
+        out = real(Image.fromarray(arr.astype(dt), mode=img.mode), *a, **kw)
+        o = np.array(out).astype(np.int64)
+        kind = "NPil"
+    my = [int(v) // W for v in o[:, 0]]
+    mx = [int(v) % W for v in o[0, :]]
+    sep = (np.array(my)[:, None] * W + np.array(mx)[None, :])
+    if sep.shape != o.shape or not np.array_equal(sep, o):
+        return "resized id image is not a separable index map"
+    return [kind, my, mx]
+
+
 @contextlib.contextmanager
 def spy_functional(log):
     import importlib
@@ -562,8 +660,12 @@ def spy_functional(log):
                     else:
                         par = [int(v) for v in kw.get("size", a[0] if a else None)]
                         extra = str(kw.get("interpolation", a[1] if len(a) > 1 else None))
-                    log.append([name, _role(img), par, extra])
-                    return real(img, *a, **kw)
+                    entry = [name, _role(img), par, extra]
+                    log.append(entry)
+                    res = real(img, *a, **kw)
+                    if name == "resize" and "NEAREST" in extra.upper():
+                        entry.append(measure_nn(real, img, a, kw))
+                    return res
                 return spy
             saved.append((mod, attr, real))
             setattr(mod, attr, make(real, name))
@@ -882,7 +984,91 @@ def run_norm(case):
     return obs
 
 
-RUNNERS = {"crop": run_crop, "two": run_crop, "simple": run_crop, "rrc": run_rrc, "erase": run_erase,
+def run_specprobe(case):
+    """exhaustive boundary probe of the float32 fact behind the assert of KDSpecAugment._mask_along_axis:
+    value = np_random_as_tensor(rng) * mask_param with the largest values np_random_as_tensor can return, for EVERY
+    mask_param in lo..hi; the real np_random_as_tensor is used for the factor, the product is torch's float32 product"""
+    import numpy as np
+    import torch
+    from kappadata.utils.random import np_random_as_tensor
+
+    class Fixed:
+        def __init__(self, v):
+            self.v = v
+
+        def random(self):
+            return self.v
+    obs = {"us": [], "bad": []}
+    one = np.float64(1.0)
+    below64 = float(np.nextafter(one, 0.0))                           # largest float64 < 1: rounds to 1.0f -> eps branch
+    below32 = float(np.nextafter(np.float32(1.0), np.float32(0.0)))   # 1 - 2^-24, the largest float32 < 1
+    mid = float(np.float64(below32) + 2.0 ** -26)                     # rounds to below32 (not to 1.0)
+    P = torch.arange(case["lo"], case["hi"] + 1, dtype=torch.int64)
+    for u in (below64, below32, mid, 0.5, 0.99999994, 1.0 - 1e-6):
+        t = np_random_as_tensor(Fixed(u))
+        obs["us"].append([u, float(t), str(t.dtype)])
+        if not (t.dtype == torch.float32 and 0.0 <= float(t) <= below32):
+            obs["bad"].append(["factor", u, float(t)])
+            continue
+        value = t * P.to(torch.float32)            # = tensor * python int for every P <= 2^24 (exactly representable)
+        wrong = (value.long() >= P) | (value >= P.to(torch.float32))
+        if bool(wrong.any()):
+            k = int(torch.nonzero(wrong)[0])
+            obs["bad"].append(["product", u, int(P[k]), float(value[k])])
+        # spot check: the scalar product the code really computes
+        for p_ in (case["lo"], case["hi"], (case["lo"] + case["hi"]) // 2):
+            v = t * int(p_)
+            if not (v.dtype == torch.float32 and float(v) == float(value[p_ - case["lo"]])):
+                obs["bad"].append(["scalar-vs-vector", u, int(p_), float(v)])
+    obs["code"] = 0
+    obs["n"] = int(P.numel())
+    return obs
+
+
+def run_patchwise(case):
+    import torch
+    from kappadata.transforms.base.kd_transform import KDTransform
+    from kappadata.transforms.patchwise_transform import PatchwiseTransform
+    H, W, Cn = case["H"], case["W"], case["C"]
+    ph, pw = two(case["patch"])
+    calls = []
+
+    class FlipAndTag(KDTransform):
+        """call number l: flip the patch horizontally and add 1000 * l"""
+
+        def __call__(self, x, ctx=None):
+            calls.append(list(x.shape))
+            return torch.flip(x, dims=[-1]) + 1000.0 * (len(calls) - 1)
+    x = torch.arange(Cn * H * W, dtype=torch.float32).reshape(Cn, H, W)
+    obs = {}
+    try:
+        t = PatchwiseTransform(patch_size=case["patch"], transform=FlipAndTag())
+        out = t(x.clone(), {})
+        obs["code"] = 0
+    except Exception as e:  # noqa
+        obs["code"] = classify(e)
+        obs["exc"] = repr(e)[:200]
+        return obs
+    obs["shape"] = list(out.shape)
+    obs["calls"] = calls
+    obs["out"] = [int(v) for v in out.reshape(-1)]
+    # by hand, straight from the documented meaning: block (a, b) is flipped and tagged with a * (W // pw) + b
+    ref = x.clone()
+    lw = W // pw
+    for a_ in range(H // ph):
+        for b_ in range(lw):
+            blk = x[:, a_ * ph:(a_ + 1) * ph, b_ * pw:(b_ + 1) * pw]
+            ref[:, a_ * ph:(a_ + 1) * ph, b_ * pw:(b_ + 1) * pw] = torch.flip(blk, dims=[-1]) + 1000.0 * (a_ * lw + b_)
+    obs["by_hand"] = bool(out.shape == ref.shape and torch.equal(out, ref))
+
+    class Same(KDTransform):
+        def __call__(self, x, ctx=None):
+            return x
+    obs["identity"] = bool(torch.equal(PatchwiseTransform(patch_size=case["patch"], transform=Same())(x.clone(), {}), x))
+    return obs
+
+
+RUNNERS = {"specprobe": run_specprobe, "patchwise": run_patchwise, "crop": run_crop, "two": run_crop, "simple": run_crop, "rrc": run_rrc, "erase": run_erase,
            "spec": run_spec, "semseg": run_semseg, "multi": run_multi, "patch": run_patch, "patch5": run_patch,
            "norm": run_norm}
 
@@ -1087,7 +1273,7 @@ def oracle_semseg(case, obs):
             continue
         if cx[0][0] != cs[-1][0] or cx[0][2] != cs[-1][2]:
             return (f"op {k} ({o['op']}): image got {cx[0][0]}{cx[0][2]} but the mask got {cs[-1][0]}{cs[-1][2]}")
-        name, _, par, extra = cx[0]
+        name, _, par, extra = cx[0][:4]
         if name == "pad":
             l, t, r, b = par
             if min(par) < 0:
@@ -1118,6 +1304,16 @@ def oracle_semseg(case, obs):
                 return f"op {k}: resize to {par}"
             if "NEAREST" not in str(cs[-1][3]).upper():
                 return f"op {k}: mask resized with {cs[-1][3]}"
+            ms = cs[-1][4] if len(cs[-1]) > 4 else None
+            if not isinstance(ms, list):
+                return f"op {k}: the mask's nearest resize could not be measured as an index map: {ms}"
+            for axis, (n_in, n_out, m) in enumerate(((H, nh, ms[1]), (W, nw, ms[2]))):
+                bad = nn_contract(ms[0], n_in, n_out, m)
+                if bad:
+                    return f"op {k}: nearest resize {n_in} -> {n_out} of axis {axis} ({ms[0]}): {bad}"
+            if len(cx[0]) > 4 and cx[0][4] != ms:
+                return (f"op {k}: image and mask are resized {[H, W]} -> {par} with different nearest index maps: "
+                        f"{cx[0][4]} vs {ms}")
             H, W = nh, nw
     if obs["x_hw"] != [H, W] or obs["seg_hw"] != [H, W]:
         return f"output sizes image {obs['x_hw']} mask {obs['seg_hw']}, geometry says {[H, W]}"
@@ -1197,7 +1393,34 @@ def oracle_norm(case, obs):
     return None
 
 
-ORACLES = {"crop": oracle_crop, "two": oracle_crop, "simple": oracle_crop, "rrc": oracle_rrc, "erase": oracle_erase,
+def oracle_specprobe(case, obs):
+    if obs["bad"]:
+        return ("float32: np_random_as_tensor(rng) * mask_param reaches mask_param (the assert of _mask_along_axis "
+                f"would fire / the mask would be as long as the parameter): {obs['bad'][:3]}")
+    return None
+
+
+def oracle_patchwise(case, obs):
+    ph, pw = two(case["patch"])
+    legit = case["H"] % ph == 0 and case["W"] % pw == 0
+    code = obs["code"]
+    if not legit:
+        return None if code == 3 else f"size not divisible by the patch size: expected AssertionError, got code {code} {obs.get('exc')}"
+    if code != 0:
+        return f"raised {obs.get('exc')}"
+    if obs["shape"] != [case["C"], case["H"], case["W"]]:
+        return f"output shape {obs['shape']}"
+    n = (case["H"] // ph) * (case["W"] // pw)
+    if obs["calls"] != [[case["C"], ph, pw]] * n:
+        return f"the wrapped transform was called on {obs['calls']}, expected {n} patches of {[case['C'], ph, pw]}"
+    if not obs["by_hand"]:
+        return "output differs from transforming every ph x pw block in row-major order by hand"
+    if not obs["identity"]:
+        return "PatchwiseTransform around an identity transform changes the input"
+    return None
+
+
+ORACLES = {"specprobe": oracle_specprobe, "patchwise": oracle_patchwise, "crop": oracle_crop, "two": oracle_crop, "simple": oracle_crop, "rrc": oracle_rrc, "erase": oracle_erase,
            "spec": oracle_spec, "semseg": oracle_semseg, "multi": oracle_multi, "patch": oracle_patch,
            "patch5": oracle_patch, "norm": oracle_norm}
 
@@ -1223,6 +1446,8 @@ def coq_applicable(case, obs):
         return obs["code"] == 0
     if k in ("patch", "patch5"):
         return case["inp"] == "tensor"
+    if k == "specprobe":
+        return False
     if k == "simple" and obs["code"] == 0:
         return True
     if k == "simple":
@@ -1291,13 +1516,14 @@ def coq_case(case, obs):
         rs = [t[1] for t in obs["trace"] if t[0] == "R"]
         ops, gs = [], []
         ri = 0
-        resize_seen = False
         for o, calls in zip(case["ops"], per):
             cx, cs = calls["x"], calls["seg"]
             if cx:
-                name, _, par, _ = cx[0]
+                name, _, par, _ = cx[0][:4]
+                ms = cs[-1][4] if name == "resize" and len(cs[-1]) > 4 and isinstance(cs[-1][4], list) else [None, [], []]
                 g = {"pad": lambda: C("GPad", tuple(par)), "crop": lambda: C("GCrop", tuple(par)),
-                     "hflip": lambda: Raw("GFlip"), "resize": lambda: C("GResize", par[0], par[1])}[name]()
+                     "hflip": lambda: Raw("GFlip"),
+                     "resize": lambda: C("GResize", par[0], par[1], [int(v) for v in ms[1]], [int(v) for v in ms[2]])}[name]()
             else:
                 g = Raw("GId")
             gs.append(g)
@@ -1309,17 +1535,17 @@ def coq_case(case, obs):
                 applied = rs[ri] < o["p"] if ri < len(rs) else False
                 ri += 1
                 ops.append(C("SFlip", bool(applied)))
-            elif o["op"] == "rresize":
-                resize_seen = True
+            elif o["op"] in ("rresize", "resize"):
                 par = cx[0][2] if cx else [0, 0]
-                ops.append(C("SRandResize", par[0], par[1]))
-            elif o["op"] == "resize":
-                resize_seen = True
-                ops.append(C("SResize", o["size"][0], o["size"][1]))
+                ms = cs[-1][4] if cs and len(cs[-1]) > 4 and isinstance(cs[-1][4], list) else ["NTorch", [], []]
+                if o["op"] == "resize":
+                    par = o["size"]
+                ops.append(C("SRandResize" if o["op"] == "rresize" else "SResize", par[0], par[1], Raw(ms[0]),
+                             [int(v) for v in ms[1]], [int(v) for v in ms[2]]))
             else:
                 ops.append(Raw("SOther"))
         pix = Raw("None")
-        if "pix_x" in obs and not resize_seen and case["content"] == "id":
+        if "pix_x" in obs and case["content"] == "id":
             pix = Raw("(Some (" + coq(obs["pix_x"]) + ", " + coq(obs["pix_seg"]) + "))")
         return coq(C("KSemseg", ops, case["H"], case["W"], Draws(obs["trace"]), code, gs,
                      obs["x_hw"][0], obs["x_hw"][1], pix))
@@ -1335,6 +1561,9 @@ def coq_case(case, obs):
     if k == "patch5":
         ph, pw = two(case["patch"])
         return coq(C("KPatch5", ph, pw, case["C"], case["H"], case["W"], code, obs["out"] if ok else Raw("[]")))
+    if k == "patchwise":
+        ph, pw = two(case["patch"])
+        return coq(C("KPatchwise", ph, pw, case["C"], case["H"], case["W"], code, obs["out"] if ok else Raw("[]")))
     if k == "norm":
         ents = [tuple(Q(v) for v in e) for e in obs["entries"]]
         return coq(C("KNorm", bool(case["range"]), ents))
@@ -1519,7 +1748,14 @@ def gen_norm(rng, big):
             "seed": rng.randrange(10 ** 6)}
 
 
-GENS = [("crop", gen_crop, 17), ("two", gen_two, 11), ("simple", gen_simple, 7), ("rrc", gen_rrc, 16),
+def gen_patchwise(rng, big):
+    c = gen_patch(rng, big)
+    c["kind"] = "patchwise"
+    c["inp"] = "tensor"
+    return c
+
+
+GENS = [("patchwise", gen_patchwise, 2), ("crop", gen_crop, 17), ("two", gen_two, 11), ("simple", gen_simple, 7), ("rrc", gen_rrc, 16),
         ("erase", gen_erase, 10), ("spec", gen_spec, 9), ("semseg", gen_semseg, 17), ("multi", gen_multi, 3),
         ("patch", gen_patch, 5), ("patch5", lambda r, b: gen_patch(r, b, five=True), 2), ("norm", gen_norm, 3)]
 
@@ -1549,13 +1785,41 @@ def boundary_cases():
                                                   {"op": "pad", "size": [3, 4]}],
                         "H": H, "W": W, "inp": "tensor" if (H + W) % 2 else "pil", "content": "id", "interp": "nearest",
                         "seeded": bool(H % 2), "via": "direct", "idx": 0, "seed": H * 5 + W})
+    # 1-pixel-wide pairs through KDSemsegRandomResize: the target rounds a side to 0 and torchvision raises (counted in
+    # the histogram as "semseg:resize target rounds a side to 0 (torchvision rejects)")
+    for (H, W) in ((15, 1), (1, 15), (1, 1), (2, 40)):
+        out.append({"kind": "semseg", "ops": [{"op": "rresize", "base": [8, 4], "ratio": [0.5, 0.5]}],
+                    "H": H, "W": W, "inp": "tensor", "content": "id", "interp": "nearest", "seeded": False,
+                    "via": "direct", "idx": 0, "seed": H + W})
+    # resize-only pipelines with every kind of input: pixel maps through the nearest index maps
+    for (H, W, nh, nw) in ((4, 5, 2, 3), (2, 2, 7, 7), (14, 14, 46, 46), (26, 13, 22, 11), (3, 7, 3, 7), (6, 4, 4, 6)):
+        for inp in ("tensor", "pil"):
+            out.append({"kind": "semseg", "ops": [{"op": "resize", "size": [nh, nw]}, {"op": "flip", "p": 1.0}],
+                        "H": H, "W": W, "inp": inp, "content": "id", "interp": "nearest", "seeded": False,
+                        "via": "direct", "idx": 0, "seed": H + W})
+    return out
+
+
+MORE_INPUTS = ["pilL", "pilI16", "pilI", "tensor_u8", "tensor_b"]
+
+
+def gen_more_inputs(rng, n):
+    """crops / resized crops on further input families: PIL modes L, I;16, I, uint8 tensors, batched (B,C,H,W) tensors"""
+    out = []
+    for _ in range(n):
+        c = rng.choice([gen_crop, gen_crop, gen_two, gen_simple, gen_rrc, gen_rrc])(rng, False)
+        c["inp"] = rng.choice(MORE_INPUTS)
+        out.append(c)
     return out
 
 
 def gen_cases(rng, tier):
     if tier == "quick":
-        return boundary_cases() + [gen_case(rng) for _ in range(2400)]
-    return boundary_cases() + [gen_case(rng) for _ in range(9000)] + [gen_case(rng, big=True) for _ in range(4000)]
+        return (boundary_cases() + [{"kind": "specprobe", "lo": 1, "hi": 2 ** 24}]
+                + [gen_case(rng) for _ in range(2400)] + gen_more_inputs(rng, 100))
+    return (boundary_cases() + [{"kind": "specprobe", "lo": 1, "hi": 2 ** 24}]
+            + [gen_case(rng) for _ in range(9000)] + [gen_case(rng, big=True) for _ in range(4000)]
+            + gen_more_inputs(rng, 2500))
 
 
 def search_cases(rng, tier):
@@ -1640,6 +1904,11 @@ def features(case, obs):
     if k == "spec" and obs.get("code") == 0:
         yield f"spec:rows={'0' if not obs['rows'] else '>0'} cols={'0' if not obs['cols'] else '>0'}"
         yield f"spec:P>size={(case['tm'] or 0) > case['T'] or (case['fm'] or 0) > case['F']}"
+    if k == "specprobe":
+        yield f"specprobe:mask_params checked={obs.get('n')} x {len(obs.get('us', []))} factors"
+        return
+    if k == "semseg" and obs.get("code") == 6:
+        yield "semseg:resize target rounds a side to 0 (torchvision rejects)"
     if k == "semseg":
         yield f"semseg:n_ops={len(case['ops'])}"
         yield f"semseg:seeded={case['seeded']} via={case['via']}"
@@ -1650,6 +1919,12 @@ def features(case, obs):
             red = max([len(c["seg"]) - 1 for o, c in zip(case["ops"], parse_semseg_log(case, obs)) if o["op"] == "crop"] + [0])
             yield f"semseg:redraws={'0' if red == 0 else '1-9' if red < 10 else '10'}"
             yield f"semseg:pixelmap={'pix_x' in obs}"
+            has_resize = any(o["op"] in ("resize", "rresize") for o in case["ops"])
+            if "pix_x" in obs and case["content"] == "id":
+                yield f"semseg:pixelmap compared in Coq, pipeline with resize={has_resize}"
+            for e in obs["log"]:
+                if e[0] == "resize" and e[1] == "seg" and len(e) > 4 and isinstance(e[4], list):
+                    yield f"semseg:nearest map measured ({e[4][0]})"
 
 
 def nontrivial_key(case, obs):
@@ -1668,6 +1943,8 @@ def nontrivial_key(case, obs):
         return (k, case["H"], case["W"], tuple(o["op"] for o in case["ops"]), case["inp"], case["seeded"], case["via"])
     if k == "multi":
         return (k, tuple(case["size"]), case["H"], case["W"])
-    if k in ("patch", "patch5"):
+    if k in ("patch", "patch5", "patchwise"):
         return (k, str(case["patch"]), case["H"], case["W"], case["C"], case["inp"])
+    if k == "specprobe":
+        return (k,)
     return (k, case["range"], tuple(case["mean"]), tuple(case["std"]), case["inp"])
